@@ -161,8 +161,17 @@ Theorem C04_laziness_monotone_arg : forall fe fc fm r x e1 e2 body m,
   run_in fe fc fm r (ECall (EFunc [(x, None)] body) [e2]) = res.
 Proof. exact laziness_monotone_arg. Qed.
 
-(* not proved: the same statement for an arbitrary subterm position (array item, object
-   field, any context); the implementation-only search checks it at every binding position *)
+(* ... and for an array item that is never demanded (the array is bound by a local and used
+   by arbitrary code) *)
+Theorem C04_laziness_monotone_item : forall fe fc fm r x es1 es2 e1 e2 body m,
+  let res := run_in fe fc fm r
+               (ELocal [(x, EArr (es1 ++ EIndex (EArr [e1]) (ETrace (EStr m) (ENum 0)) :: es2))] body) in
+  ~ In m (fst res) -> snd res <> OutOfFuel ->
+  run_in fe fc fm r (ELocal [(x, EArr (es1 ++ e2 :: es2))] body) = res.
+Proof. exact laziness_monotone_item. Qed.
+
+(* not proved: the same statement for an arbitrary subterm position (object field, nested
+   contexts); the implementation-only search checks it at every binding position *)
 Definition C04_goal_laziness_monotone_any_context : Prop :=
   forall fe fc fm r c e1 e2 m,
     let res := run_in fe fc fm r (plug c (EIndex (EArr [e1]) (ETrace (EStr m) (ENum 0)))) in
@@ -206,7 +215,12 @@ Example C04_nonvacuous_laziness :
   run_in 12 12 12 RNil (ELocal [(nx, EIndex (EArr [EError (EStr msg_t)]) (ETrace (EStr mk) (ENum 0)))] body)
     = ([msg_t], Ok (JNum 3)) /\
   fst (run_in 12 12 12 RNil (ELocal [(nx, EIndex (EArr [EError (EStr msg_t)]) (ETrace (EStr mk) (ENum 0)))] (EVar nx)))
-    = [mk].
+    = [mk] /\
+  (* an array whose second item is never demanded *)
+  run_in 12 12 12 RNil
+    (ELocal [(nx, EArr ([traced_sum] ++ EIndex (EArr [EError (EStr msg_t)]) (ETrace (EStr mk) (ENum 0)) :: []))]
+            (EIndex (EVar nx) (ENum 0)))
+    = ([msg_t], Ok (JNum 3)).
 Proof. vm_compute. repeat split. Qed.
 
 Example C04_nonvacuous_machine :
@@ -237,6 +251,7 @@ Print Assumptions C04_set_done_assert_never_fires.
 Print Assumptions C04_inprogress_reentry_fails.
 Print Assumptions C04_laziness_monotone.
 Print Assumptions C04_laziness_monotone_arg.
+Print Assumptions C04_laziness_monotone_item.
 Print Assumptions C04_nonvacuous_rewrites.
 Print Assumptions C04_nonvacuous_laziness.
 Print Assumptions C04_nonvacuous_machine.
